@@ -54,6 +54,10 @@ def written_index_order(rep, prog, tier, dl):
     cases = []
     for opts in ((64, 16, 1000), (64, 16, 3), (4, 16, 1000)) if tier == 'quick' else ((64, 16, 1000), (64, 16, 3), (4, 16, 1000), (64, 16, 2), (64, 0, 1000)):
         cases.append(dict(kinds='DDDDFFF', classes=[0, 0, 0, 0, 1, 2, 3], mode='none', paths=nested, sizes=[0, 0, 0, 0, 5, 6, 7], fixed_opts=opts))
+    # entries that reach the index writer in plain string order although the apath order differs: an empty file in a
+    # subdirectory is recorded directly, a small file after it goes through the combiner and is appended last
+    for H in (1000, 2):
+        cases.append(dict(kinds='DFF', classes=[0, 1, 2], mode='none', paths=['/sub', '/zz', '/sub/empty'], sizes=[0, 5, 0], fixed_opts=(64, 16, H)))
     rep.bounds['written_index'] = {'names': nested, 'options (max_block_size, small_file_cap, max_entries_per_hunk)': [c['fixed_opts'] for c in cases]}
     BC.run_cases(rep, prog, cases, dl, 'C11', 'the index a backup writes for nested names around "/" is strictly increasing within and across hunks (independent reading of the store)',
                  require=[r'event-free run'])
@@ -357,8 +361,11 @@ def check_C13(rep, prog, tier):
     for opts in ((64, 16, 1000), (64, 16, 3), (4, 16, 1000)):
         cases.append(dict(kinds='DDDDFFF', classes=[0, 0, 0, 0, 1, 2, 3], mode='none', paths=nested, sizes=[0, 0, 0, 0, 5, 6, 7],
                           fixed_opts=opts))
+    cases.append(dict(kinds='DFF', classes=[0, 1, 2], mode='none', paths=['/sub', '/zz', '/sub/empty'], sizes=[0, 5, 0], fixed_opts=(64, 16, 1000)))
     # "everything written": also what a run writes around one failing storage step (duplicate content after a failed block write)
     cases += _bcases([('FF', [1, 1])], ['fault'])
+    # ... and while the source changes under it: the last file is shorter than the listing said, or its read fails
+    cases += _bcases([('FF', [1, 2])], ['none'], shrink=True) + _bcases([('FF', [1, 2])], ['none'], read_errors=True)
     rep.bounds = {'cases': [BC.case_name(c) for c in cases]}
     rep.assumptions += BC.COMMON_ASSUMPTIONS + ['the literal JSON and Snappy byte encodings are modelled, not decoded']
     BC.run_cases(rep, prog, cases, dl, 'C13', 'everything a backup writes (fault-free, and around one failing storage step) conforms to doc/format.md (independent reading of the store)',
